@@ -82,6 +82,10 @@ func main() {
 		for _, b := range readCases(path) {
 			runTimeDep(b)
 		}
+	case "solve":
+		for _, b := range readCases(path) {
+			runSolve(b)
+		}
 	case "engine":
 		for _, b := range readCases(path) {
 			runEngine(b)
